@@ -67,7 +67,7 @@ func cmdCheck(argv []string) int {
 	verbose := fs.Bool("v", false, "print every obligation")
 	out := fs.String("json", "", "write full results as JSON to this file")
 	quickT := fs.Int("t1", 4, "first-stage solver timeout (s)")
-	slowT := fs.Int("t2", 25, "portfolio solver timeout (s)")
+	slowT := fs.Int("t2", 40, "portfolio solver timeout (s)")
 	evidence := fs.String("evidence", "", "write the evidence file here")
 	knownPath := fs.String("known", "/verif/known_findings.json", "known findings file")
 	replayDir := fs.String("replaydir", "/verif/evidence/replay", "directory for replay files")
